@@ -1,9 +1,11 @@
 """C13 -- generator: the consumer sees exactly the yielded sequence, in every access style.
 
 spec/Generator/Generator.tla enumerates (body script, consumer script) pairs lazily; every root-to-terminal path
-of the dumped state graph is one pair with its execution and is replayed on the real generator<int> /
-generator<int,int> by harness/generator_replay.cpp (each path in two consumer implementations)."""
+of the dumped state graph is one pair with its execution and is replayed on the real generator<V> / generator<V,A>
+(V, A: tracked payload types) by harness/generator_replay.cpp (each path in several consumer implementations)."""
+import json
 import os
+import re
 
 import vlib
 from framework import graph_replay
@@ -11,7 +13,8 @@ from framework import graph_replay
 # internal specification actions are part of the public call that contains them
 MERGE = r"(BodyResume|BodyStep|FinalSuspend|YieldSuspend|UnblockSync|UnblockFuture|ResumeAwt|SyncReturn)$"
 KEEP = ("alive", "bscript", "bst", "cscript", "got", "it", "loc", "obs", "par")
-SYNC_STEPS = ("yield", "ynull", "throw", "return")
+SYNC_STEPS = ("yield", "yt", "yv", "ym", "ynull", "throw", "return")
+KEY_POSTINC = "iterator_postincrement_moves_item"     # known finding, fixed in /repo 97856c3
 
 
 def proj(st):
@@ -28,7 +31,33 @@ def proj(st):
     # counted by the replayer; the coroutine frames are created outside)
     if all(k in SYNC_STEPS for k in st["bscript"]):
         d["allocs"] = 0
+    # payload: copy / move constructions of the yielded type so far, none at all of the argument type, the body's own
+    # variable while it exists, and the public view gen.value() of the item the body is parked at
+    pay = st["pay"]
+    d["cp"] = pay["cp"]
+    d["mv"] = pay["mv"]
+    d["aops"] = 0
+    body_var = st["bst"] in ("yield", "await")
+    d["var"] = {"id": pay["var"] if body_var else 0, "m": pay["moved"] if body_var else False}
+    d["val"] = st["pr"]["ret"] if (st["alive"] and st["bst"] == "yield") else 0
     return d
+
+
+def key_fn(sid, line, txt):
+    """stable key of a divergence: it++ moving the item out of the yielded object (instead of copying it) is
+    recognised by what diverged -- at a post-increment the implementation made a move construction the
+    specification does not have"""
+    m = re.search(r'action=NextSync\("postinc"\) expected=(\{.*\}) got=(\{.*\})$', line)
+    if m:
+        try:
+            e, g = json.loads(m.group(1)), json.loads(m.group(2))
+            if g.get("mv", 0) > e.get("mv", 0):
+                return KEY_POSTINC
+        except ValueError:
+            pass
+    if line == "crash":
+        return "crash:Generator"
+    return "diverge:Generator:%s" % re.sub(r"^DIVERGE \S+ ", "", line)[:80]
 
 
 def dag_cover_paths(g, rng, max_paths=None, full=True, max_len=400, want_terminal=True):
@@ -100,6 +129,10 @@ def replay(*a, **kw):
         vlib.cover_paths = saved
 
 
+PAYK = '{"yt", "yv", "ym", "return"}'
+PAYK_ASYNC = '{"yt", "yv", "ym", "apend", "return"}'
+PAYK_ARG = '{"ynull", "yt", "yv", "ym", "return"}'
+
 COMMON = ["NextSync", "NextFuture", "BodyResume", "BodyStep", "FinalSuspend", "YieldSuspend", "UnblockSync",
           "SyncReturn", "UnblockFuture", "ExternalResolve", "Destroy"]
 ASYNC = ["NextAsync", "ResumeAwt"]
@@ -131,7 +164,8 @@ def alloc_replay(ctx):
         replay(ctx, "Generator", "Generator", cfg, tag, rp, pj, header_fn=hdr, merge_re=MERGE,
                must_take=["NextSync", "NextAsync", "NextFuture", "BodyStep", "YieldSuspend", "UnblockSync", "UnblockFuture",
                           "ResumeAwt", "FinalSuspend", "Destroy"],
-               constants=consts, max_paths=2500 if ctx.quick else None, replay_timeout=900, tlc_kw={"workers": 4})
+               constants=consts, max_paths=2500 if ctx.quick else None, replay_timeout=900, tlc_kw={"workers": 4},
+               key_fn=key_fn)
     ctx.assume("generator: allocations are the global operator new calls made by the consumer's thread inside an access of a "
                "generator whose body is synchronous; the generator's and the consumer coroutines' frames and the consumer's own "
                "future objects are created outside the accesses; an exception thrown by the body is allocated by the C++ runtime "
@@ -142,6 +176,7 @@ def run(ctx):
     rp = vlib.compile_harness(vlib.VERIF + "/harness/generator_replay.cpp", "generator_replay", sanitize=not ctx.quick)
     q = ctx.quick
     S3 = '{"sync", "coawait", "future"}'
+    pay_thorough = {"BodyKinds": PAYK, "EarlyDestroy": "FALSE", "MaxAfterEnd": 0}
     # (cfg, tag, with argument, replay modes, constant overrides quick, constant overrides thorough); None = tier skips it
     jobs = [
         ("Generator_noarg.cfg", "noarg", False, ["native", "coro", "cb"], {},
@@ -150,6 +185,14 @@ def run(ctx):
          {"MaxBody": 6, "MaxAcc": 6, "MaxAfterEnd": 1, "Styles": S3, "BodyKinds": '{"yield", "apend", "throw", "return"}'}),
         ("Generator_arg.cfg", "arg", True, ["native", "coro", "cb"], {},
          {"MaxBody": 5, "MaxAcc": 5}),
+        # payload dimension: the body yields temporaries computed from its variable, the variable itself (which it keeps
+        # extending) and std::move(variable), in every mix, under every access style
+        ("Generator_noarg.cfg", "payload", False, ["native", "coro", "cb"],
+         {"BodyKinds": PAYK, "EarlyDestroy": "FALSE", "MaxAfterEnd": 0, "MaxAcc": 3},
+         dict(pay_thorough, BodyKinds=PAYK_ASYNC)),
+        ("Generator_arg.cfg", "payload_arg", True, ["native", "coro", "cb"],
+         {"BodyKinds": PAYK_ARG, "EarlyDestroy": "FALSE", "MaxAfterEnd": 0, "MaxAcc": 3},
+         dict(pay_thorough, BodyKinds=PAYK_ARG)),
         ("Generator_thr.cfg", "thr", False, ["thr_late", "thr_early"], {},
          {"MaxAcc": 4, "MaxAfterEnd": 2}),
         ("Generator_thr.cfg", "thrarg", True, ["thr_late", "thr_early"],
@@ -161,11 +204,25 @@ def run(ctx):
         if consts is None:
             continue
         consts = {k: str(v) for k, v in consts.items()}
+        pay = tag.startswith("payload")
+        must = [a for a in COMMON + ASYNC if a != "ExternalResolve" or "apend" in consts.get("BodyKinds", "apend")]
+        cap = 6000 if (pay and q) else None
 
         def hdr(k, st0, witharg=witharg, modes=modes):
             return {"witharg": witharg, "modes": modes}
         replay(ctx, "Generator", "Generator", cfg, tag, rp, proj, header_fn=hdr, merge_re=MERGE,
-               must_take=COMMON + ASYNC, constants=consts or None, replay_timeout=3000, tlc_kw={"workers": 4})
+               must_take=must, constants=consts or None, max_paths=cap, replay_timeout=3000, tlc_kw={"workers": 4},
+               key_fn=key_fn)
+    # self-test of the specification: with it++ modelled as it was before 97856c3 (moving the item out) TLC must report the
+    # payload invariant violated -- otherwise "the body's variable stays intact" would be vacuous
+    path = os.path.join(vlib.BUILD, "%s_postinc_selftest.cfg" % ctx.prop)
+    vlib.write_cfg(path, open(os.path.join(vlib.VERIF, "spec/Generator/Generator_noarg.cfg")).read(),
+                   {"PostIncMoves": "TRUE", "BodyKinds": PAYK, "EarlyDestroy": "FALSE"})
+    res = vlib.run_tlc(os.path.join(vlib.VERIF, "spec/Generator"), "Generator", path, "%s_postinc_selftest" % ctx.prop, workers=2,
+                       coverage=False)
+    if not (res.violation and "PayloadIntact" in res.violation):
+        raise vlib.MachineryError("specification self-test failed: PostIncMoves=TRUE does not violate PayloadIntact (%s)"
+                                  % (res.violation or res.error or "no violation"))
     if not q:
         # larger bounds on the specification alone (all invariants, no replay)
         for (cfg, tag) in (("Generator_noarg.cfg", "noarg_big"), ("Generator_arg.cfg", "arg_big")):
@@ -175,7 +232,10 @@ def run(ctx):
             res = ctx.tlc("Generator", "Generator", path, tag, workers=4)
             if res.violation:
                 ctx.tlc_violation(res, "Generator:" + tag)
-    ctx.assume("values are ints: the n-th co_yield yields n, the i-th access passes 100+i, the k-th awaited operation completes with k")
+    ctx.assume("payload: a tracked copyable value type (content, moved-from flag, copy/move/live counters; non-trivial but not "
+               "allocating); the n-th co_yield yields content n, or var*10+n when it is computed from / is the body's own variable; "
+               "access i passes a tracked argument with content 100+i; the k-th awaited operation completes with k; a value type "
+               "that cannot be copied (where it++ legitimately moves the item out) is not exercised")
     ctx.assume("library preconditions respected by the history generator: no access while another one is outstanding, arguments "
                "are lvalues that outlive the access, ++ only on an iterator that is not at the end, it++ only on a dereferenceable "
                "iterator, the generator is destroyed only while parked (before first activation, at a co_yield, after the end)")
